@@ -719,7 +719,15 @@ def rule_tb1(ctx, RID):
     # "the deps of an output are those most recently recorded": UpdateDeps installs the record it is given on every path
     # (no comparison with what was there decides whether the newer record counts)
     pdeps = [p_['n'] for p_ in ud.params if 'Deps' in (p_.get('ty') or '')]
-    inst_ = [e for e in ud.events('asg') if mentions_field(e['l'], 'DepsLog::deps_') and e['op'] == '=' and pdeps and mentions_var(e.get('r'), pdeps[0])]
+    def _into_table(l):
+        # directly, or through a reference to the slot (`Deps*& slot = deps_[out_id]; slot = deps;`)
+        if mentions_field(l, 'DepsLog::deps_'):
+            return True
+        sl = strip(l)
+        if isinstance(sl, dict) and sl.get('k') == 'var':
+            return any(x['k'] == 'decl' and x['n'] == sl['n'] and x.get('ref') and mentions_field(x.get('init'), 'DepsLog::deps_') for x in ud.events('decl'))
+        return False
+    inst_ = [e for e in ud.events('asg') if _into_table(e['l']) and e['op'] == '=' and pdeps and mentions_var(e.get('r'), pdeps[0])]
     r_ = ud.find_path(None, lambda x: x['k'] in ('ret', 'exit'), from_succ=ud.entry, is_blocker=lambda x: x in inst_)
     ctx.check(RID, bool(inst_) and r_ is None, ud.name, 'UpdateDeps:record-not-installed', ud.loc,
               'DepsLog::UpdateDeps stores the record it was given on every path (the latest record of an output wins)',
